@@ -197,6 +197,12 @@ class Adapter:
                       for c in range(self.ncpu)]
         self.proc.utime = PBASE[0] + self.SP * self.ptk[0]
         self.proc.stime = PBASE[1] + self.SP * self.ptk[1]
+        # what the process did not use itself: CPU time of reaped children (added
+        # by the kernel at wait()) and block-I/O delay grow at every step too
+        self.noise = getattr(self, "noise", 0) + 1
+        self.proc.cutime = 7 + 13 * self.SP * self.noise
+        self.proc.cstime = 5 + 11 * self.SP * self.noise
+        self.proc.blkio = 3 * self.SP * self.noise
 
     def advance(self, dm):
         for c in range(self.ncpu):
